@@ -143,7 +143,7 @@ fn trace_ix(ix: usize, init: &M, acts: &[u8], obs: bool) -> Trace {
 /// afresh in standard layout? (diagnostic: is a failure induced by the object's history)
 fn fresh_ok(ix: usize, p: &M, a: u8, want: &M) -> bool {
     let t = trace_ix(ix, p, &[a], false);
-    t.panic.is_none() && t.views.len() == 2 && vals_close(&[Val::mat(&t.views[1])], &[Val::mat(want)], p.max_abs().max(1.0))
+    t.panic.is_none() && t.views.len() == 2 && vals_close(&[Val::mat(&t.views[1])], &[Val::mat(want)], p.max_abs().max(1.0), &[])
 }
 
 fn act_class(a: u8, p: &M) -> &'static str {
@@ -181,7 +181,7 @@ pub fn check_state(init: &M, acts: &[u8]) -> (Vec<(String, String)>, Vec<&'stati
     let k = acts.len();
     let want = &ms[k];
     let scale = ms.iter().map(|m| m.max_abs()).fold(1.0, f64::max);
-    let same = |x: &M, y: &M| vals_close(&[Val::mat(x)], &[Val::mat(y)], scale);
+    let same = |x: &M, y: &M| vals_close(&[Val::mat(x)], &[Val::mat(y)], scale, &[]);
     for ix in 0..3 {
         let t = trace_ix(ix, init, acts, true);
         // content before the last step (the first deviation was reported in the ancestor state)
@@ -211,14 +211,14 @@ pub fn check_state(init: &M, acts: &[u8]) -> (Vec<(String, String)>, Vec<&'stati
         // observers of the reached object
         for (op, out) in &t.observers {
             let exp = model(op, want, None);
-            if !out_matches(out, &exp, scale) {
+            if !out_matches(out, &exp, scale, &[]) {
                 let fresh = mc::guard(|| match ix {
                     0 => eval_on::<DenseMatrix<f64>>(op, build(want, 0), None),
                     1 => eval_on::<ndarray::Array2<f64>>(op, build(want, 0), None),
                     _ => eval_on::<nalgebra::DMatrix<f64>>(op, build(want, 0), None),
                 });
                 let mut class = input_class(op, want, None, out.is_err());
-                if k > 0 && out_matches(&fresh, &exp, scale) {
+                if k > 0 && out_matches(&fresh, &exp, scale, &[]) {
                     class.push_str("-nonstandard-layout");
                 }
                 if out.is_err() {
